@@ -213,6 +213,23 @@ def _find_lcas(
     return lcas
 
 
+def _remove_redundant(
+    lcas: list[ObjectID],
+    lookup_parents: Callable[[ObjectID], list[ObjectID]],
+    lookup_stamp: Callable[[ObjectID], int],
+    shallows: set[ObjectID] | None,
+) -> list[ObjectID]:
+    """Drop duplicates and every commit that is an ancestor of another one in the list."""
+    lcas = list(dict.fromkeys(lcas))
+    if len(lcas) < 2:
+        return lcas
+
+    def is_ancestor(a: ObjectID, b: ObjectID) -> bool:
+        return a in _find_lcas(lookup_parents, a, [b], lookup_stamp, shallows=shallows)
+
+    return [c for c in lcas if not any(o != c and is_ancestor(c, o) for o in lcas)]
+
+
 # actual git sorts these based on commit times
 def find_merge_base(repo: "BaseRepo", commit_ids: Sequence[ObjectID]) -> list[ObjectID]:
     """Find lowest common ancestors of commit_ids[0] and *any* of commits_ids[1:].
@@ -253,7 +270,9 @@ def find_merge_base(repo: "BaseRepo", commit_ids: Sequence[ObjectID]) -> list[Ob
     lcas = _find_lcas(
         lookup_parents, c1, c2s, lookup_stamp, shallows=parents_provider.shallows
     )
-    return lcas
+    return _remove_redundant(
+        lcas, lookup_parents, lookup_stamp, parents_provider.shallows
+    )
 
 
 def find_octopus_base(
@@ -304,7 +323,9 @@ def find_octopus_base(
             )
             next_lcas.extend(res)
         lcas = next_lcas[:]
-    return lcas
+    return _remove_redundant(
+        lcas, lookup_parents, lookup_stamp, parents_provider.shallows
+    )
 
 
 def can_fast_forward(repo: "BaseRepo", c1: ObjectID, c2: ObjectID) -> bool:
